@@ -163,7 +163,7 @@ def optDate : Option Int → Bound
   | Option.none => .none
 
 /-- lines 1665-1684: the three spellings of the bound lists, brought to increasing order -/
-def normalise (dfs : List TS) (lb ub : Option (List Int)) : Res (List TS × List (Option Int) × List (Option Int)) :=
+def normalise {α} (dfs : List α) (lb ub : Option (List Int)) : Res (List α × List (Option Int) × List (Option Int)) :=
   match lb, ub with
   | some lb, Option.none =>                                    -- 1666-1670
       let (lb, dfs) := if nonDecreasing lb then (lb, dfs) else (lb.reverse, dfs.reverse)
@@ -204,6 +204,124 @@ def stitch (dfs : List TS) (lb ub : Option (List Int)) (oc : Option (List Char))
   let dlu ← zipper3 (framesOf dfs n) lbs ubs                     -- 1693
   let res ← cutAll dlu oc                                        -- 1694
   pure (assemble res)
+
+/-! ### lists holding DataFrames / scalars, bound lists of times of day (lines 1686-1701) -/
+
+/-- what a bound list holds: dates, or times of day (`datetime.time`, µs since midnight) -/
+inductive BKind where
+  | date
+  | time
+  deriving Repr, DecidableEq, Inhabited
+
+def optTime : Option Int → Bound
+  | some s => .time s
+  | Option.none => .none
+
+def BKind.bound : BKind → Option Int → Bound
+  | .date, x => optDate x
+  | .time, x => optTime x
+
+/-- a member of the list handed to `df_slice`: a Series, a DataFrame, or anything else (a scalar; `none` = NaN / `None`) -/
+inductive Member where
+  | series (s : TS)
+  | frame (f : Frame)
+  | scalar (v : Option Int)
+  deriving Repr, Inhabited
+
+/-- line 1686: `boundaries = sorted(set(date for date in lb + ub if date is not None))` -/
+def boundariesOf (lbs ubs : List (Option Int)) : List Int :=
+  (((lbs ++ ubs).filterMap id).eraseDups).mergeSort (fun a b => decide (a ≤ b))
+
+/-- line 1687: `d if is_pd(d) else pd.Series(d, boundaries)` - a scalar becomes the constant series on the boundaries.
+    With times of day the boundaries are `datetime.time` objects, the constant series is no timeseries and the code
+    raises (`AttributeError` from `index.time`, `TypeError` from `concat(axis=1).sort_index()` beside a real series). -/
+def Member.toFrame (k : BKind) (boundaries : List Int) : Member → Res Frame
+  | .series s => .ok ⟨1, ofTS s⟩
+  | .frame f => .ok f
+  | .scalar v => match k with
+    | .date => .ok ⟨1, boundaries.map fun t => (t, [v])⟩
+    | .time => .error .other
+
+/-- the row of a frame at `t`; NaN in every column when it has none -/
+def rowAt (f : Frame) (t : Int) : List (Option Int) :=
+  match f.rows.find? (·.1 == t) with
+  | some r => r.2
+  | Option.none => List.replicate f.width Option.none
+
+def Frame.index (f : Frame) : List Int := f.rows.map (·.1)
+
+/-- `pd.concat(fs, axis=1).sort_index()` with columns renumbered (lines 1689-1691) for frames: outer join on the sorted
+    union index, the columns of the members side by side -/
+def concatFrames (fs : List Frame) : Rows (List (Option Int)) :=
+  (((fs.flatMap Frame.index).eraseDups).mergeSort (fun a b => decide (a ≤ b))).map fun t => (t, fs.flatMap (rowAt · t))
+
+/-- lines 1688-1691 for frames -/
+def framesOfF (fs : List Frame) (n : Nat) : List Frame :=
+  if n > 1 then (List.range fs.length).map fun i =>
+    ⟨(((fs.drop i).take n).map (·.width)).sum, concatFrames ((fs.drop i).take n)⟩
+  else fs
+
+/-- line 1694 with bounds of either kind.  Repaired code (C13-W2): a window of two times of day whose start is later
+    than its end wraps past midnight here too (`sliceWrap`), under every bracket pair. -/
+def cutAllB (k : BKind) (dlu : List (Frame × Option Int × Option Int)) (oc : Option (List Char)) : Res (List Frame) :=
+  dlu.mapM fun (d, l, u) => do
+    let rows ← sliceWrap d.rows (k.bound l) (k.bound u) oc
+    pure (⟨d.width, rows⟩ : Frame)
+
+/-- `df_slice(list, lb, ub, openclose, n)` for a list of Series / DataFrames / scalars and bound lists of kind `k` -/
+def stitchM (ms : List Member) (k : BKind) (lb ub : Option (List Int)) (oc : Option (List Char)) (n : Nat) :
+    Res (Option Frame) := do
+  let (ms, lbs, ubs) ← normalise ms lb ub
+  let fs ← ms.mapM (Member.toFrame k (boundariesOf lbs ubs))      -- 1686-1687
+  let dlu ← zipper3 (framesOfF fs n) lbs ubs                      -- 1693
+  let res ← cutAllB k dlu oc                                      -- 1694
+  pure (assemble res)
+
+/-- the two bound lists may be of different kinds on the wire: after the direction checks `sorted(set(lb + ub))`
+    compares a datetime with a time: `TypeError` -/
+def stitchB (ms : List Member) (lb ub : Option (BKind × List Int)) (oc : Option (List Char)) (n : Nat) : Res (Option Frame) := do
+  let _ ← normalise ms (lb.map (·.2)) (ub.map (·.2))
+  match lb, ub with
+  | some (k1, l1), some (k2, l2) =>
+      if k1 != k2 && !l1.isEmpty && !l2.isEmpty then .error .type
+      else stitchM ms (if l1.isEmpty then k2 else k1) (some l1) (some l2) oc n
+  | some (k, l1), Option.none => stitchM ms k (some l1) Option.none oc n
+  | Option.none, some (k, l2) => stitchM ms k Option.none (some l2) oc n
+  | Option.none, Option.none => .error .type
+
+/-! ### ONE series with bound lists (`df` is not a list: lines 1692-1701 only) -/
+
+/-- what `df_slice` hands back -/
+inductive Sliced (α : Type) where
+  | nothing                       -- `None`
+  | one (r : Rows α)              -- a Series / DataFrame
+  | many (rs : List (Rows α))     -- a python list of slices
+  deriving Repr, Inhabited
+
+/-- a bound argument: a single bound (`None`, a date, a time of day) or a python list of them -/
+inductive BArg where
+  | one (b : Bound)
+  | list (bs : List Bound)
+  deriving Repr, Inhabited
+
+def BArg.toList : BArg → List Bound
+  | .one b => [b]
+  | .list bs => bs
+
+def BArg.isList : BArg → Bool
+  | .one _ => false
+  | .list _ => true
+
+/-- `df_slice(ts, lb, ub, openclose)` for ONE series and bounds of which at least one is a list: nothing is normalised
+    (`df` is no list), `zipper` repeats the single values, every pair of bounds cuts the same series; the slices come
+    back as a python list - concatenated only when BOTH bounds are lists (line 1699) -/
+def slicesOfSeries {α} (df : Rows α) (lb ub : BArg) (oc : Option (List Char)) : Res (Sliced α) := do
+  let dlu ← zipper3 [df] lb.toList ub.toList
+  let res ← dlu.mapM fun (d, l, u) => sliceWrap d l u oc
+  match res with
+  | [] => pure .nothing
+  | [x] => pure (.one x)
+  | _ => if lb.isList && ub.isList then pure (.one res.flatten) else pure (.many res)
 
 /-! ### df_unslice -/
 
